@@ -88,6 +88,13 @@ Theorem c18_workers_survive : forall o n c cs,
 Proof. exact workers_count. Qed.
 Print Assumptions c18_workers_survive.
 
+(* at no time are more tasks in flight than the executor has workers (with one worker: one at a
+   time), and never more worker goroutines than configured *)
+Theorem c18_in_flight_bound : forall o n c cs,
+  let s := run o (init n c) cs in length (busy (ws s)) <= nw s /\ length (ws s) <= nw s.
+Proof. exact in_flight_bound. Qed.
+Print Assumptions c18_in_flight_bound.
+
 (* "Once shutdown has returned no task is running or will be started, and all workers have exited" *)
 Theorem c18_quiescent : forall o n c cs cs',
   let s := run o (init n c) cs in
